@@ -35,12 +35,28 @@ def op_alphabet():
     return ops
 
 
+OLD_TIME = 946684800          # 2000-01-01: older than any cache file
+
+
+class _W:
+    """file writes; every second one keeps an OLD modification time, as a restore (cp -p, tar, a checkout) or a rename does:
+    the content, not the time stamp, decides whether a cached entry may be reused (seeded change C09-9)"""
+    n = 0
+
+    @classmethod
+    def write_file(cls, root, path, cid):
+        F.write_file(root, path, cid)
+        cls.n += 1
+        if cls.n % 2 == 0:
+            os.utime(os.path.join(root, path), (OLD_TIME, OLD_TIME))
+
+
 def apply_op(root, files, excludes, op):
     """perform op on the real tree; `files` is the model's ordered list [(path, cid)]; returns new excludes"""
     kind = op[0]
     d = dict(files)
     if kind == "write":
-        F.write_file(root, op[1], op[2])
+        _W.write_file(root, op[1], op[2])
         if op[1] in d:
             files[:] = [(p, op[2] if p == op[1] else c) for p, c in files]
         else:
@@ -51,13 +67,13 @@ def apply_op(root, files, excludes, op):
             files[:] = [(p, c) for p, c in files if p != op[1]]
     elif kind == "touch":
         if op[1] in d:
-            F.write_file(root, op[1], d[op[1]])
+            _W.write_file(root, op[1], d[op[1]])
     elif kind == "rename":
         a, b = op[1], op[2]
         if a in d:
             # contents are tied to the extension in this universe: a rename is delete + write of the same content id
             os.remove(os.path.join(root, a))
-            F.write_file(root, b, d[a])
+            _W.write_file(root, b, d[a])
             files[:] = [(p, c) for p, c in files if p != a]
             if b in dict(files):
                 files[:] = [(p, d[a] if p == b else c) for p, c in files]
@@ -66,8 +82,8 @@ def apply_op(root, files, excludes, op):
     elif kind == "swap":
         a, b = op[1], op[2]
         if a in d and b in d:
-            F.write_file(root, a, d[b])
-            F.write_file(root, b, d[a])
+            _W.write_file(root, a, d[b])
+            _W.write_file(root, b, d[a])
             files[:] = [(p, d[b] if p == a else d[a] if p == b else c) for p, c in files]
     elif kind == "exclude":
         return list(op[1])
@@ -130,6 +146,7 @@ def model_op(op, cache_snapshot):
 
 def run_history(args):
     ops, tmp, tag = args
+    _W.n = 0          # reproducible per history
     root = tempfile.mkdtemp(prefix=f"c09_{tag}_", dir=tmp)
     scratch = root + "_fresh"
     files = []
